@@ -165,7 +165,7 @@ def _plain_encoder(tree, ob):
                     n += 1
                     if c.keywords or len(c.args) != 1:
                         ob.violate(rel, qual, src(c)[:70], 'the encoder of the encoding layer is called with options ({}): what was decoded is not written back as it was '
-                                   '(canonical ordering re-sorts maps inside data the node only carries)'.format(', '.join(k.arg or '**' for k in c.keywords) or 'extra arguments'), c)
+                                   '(canonical ordering re-sorts maps inside data the node only carries)'.format(', '.join(k.arg or '**' for k in c.keywords) or 'extra arguments'), c, sure=True)
                     else:
                         ob.site(rel, c, qual + ': plain cbor2.dumps')
     ob.require(n >= 5, 'cbor2.dumps calls in the encoding layer: {}'.format(n))
